@@ -11,7 +11,8 @@ import vf
 
 PROP = "C06"
 SPEC = "Literals"
-TLC_ENV = {"JAVA_TOOL_OPTIONS": "-Xss512m"}      # BigNat recursion is deep; TLC worker threads take the -Xss from here
+# BigNat recursion is deep; TLC worker threads take the -Xss from here.  The quick tier's TLC runs are short: C1 only, few GC threads.
+TLC_ENV = {"JAVA_TOOL_OPTIONS": "-Xss512m" + (" -XX:TieredStopAtLevel=1 -XX:ParallelGCThreads=2" if vf.TIER != "thorough" else " -XX:ParallelGCThreads=4")}
 NAMED = {"<TAB>": "\t", "<LF>": "\n", "<CR>": "\r"}
 CTX_ORDER = ["arg", "var", "paren", "neg"]
 BATCH = 150
@@ -309,7 +310,7 @@ def run():
         "number spellings are exhaustive over a reduced alphabet up to a length bound plus boundary spellings; strings/runes over a "
         "catalogue of body elements (every escape form) in every position of short bodies",
         "TLC, the Go toolchain (only to cross-check the specification, never for the verdict) and python's text handling are trusted"]
-    shards = 8 if thorough else 3
+    shards = 8 if thorough else 2
     with vf.scratch() as sd, ThreadPoolExecutor(max_workers=6) as pool:
         # 1-3 run side by side: design MC, its negative control, the case generator, and the build of the real binary
         f_mc = pool.submit(vf.tlc, SPEC, "Literals_MC", "Literals_MC.cfg" if thorough else "Literals_MCq.cfg", sd,
@@ -334,8 +335,8 @@ def run():
                 lits.append(rec)
         lits.sort(key=lambda x: json.dumps(x["lit"]))
         chk.cov["literals_generated"] = len(lits)
-        if not thorough:    # quick tier: the boundary spellings, every rune literal and a seeded third of the rest
-            lits = [l for l in lits if l["grp"] == "boundary" or l["kind"] == "rune" or rng.random() < 0.34]
+        if not thorough:    # quick tier: the core (boundary spellings, every rune, every single-element string) and a seeded third of the rest
+            lits = [l for l in lits if l["grp"] == "core" or rng.random() < 0.34]
         kinds = {}
         for l in lits:
             kinds[l["kind"]] = kinds.get(l["kind"], 0) + 1
@@ -409,12 +410,14 @@ def run():
         chk.cov["go_crosscheck_cases"] = len(cases)
         lap("MC, control, cross-check done")
 
-        # 6. every failing case again, alone in its own program, judged again (a batch neighbour must not be blamed or blame)
+        # 6. every failing case again, alone in its own program, judged again (a batch neighbour must not be blamed or blame);
+        # 7. in the same TLC run the binding self-test / vacuity guard: known-bad pairs and perturbed real observations must
+        #    fail the contract, known-good pairs must pass
         redo = {}
         for b in ebad:
             for (cid_, who, _t) in eback[(b["idx"], b["obs"], b["ctx"])]:
                 redo.setdefault(who, set()).add(cid_)
-        confirmed = []
+        srecs, sback = [], {}
         if redo:
             sobs = {m: run_ego(ego, env, sd, [byid[i] for i in sorted(ids)], m, m + "-single", stats, batch=1) for m, ids in redo.items()}
             ent2, pos = [], {}
@@ -426,27 +429,12 @@ def run():
                         ent2.append((c["lit"], []))
                     ent2[pos[c["li"]]][1].append((i, m, c["ctx"], ob))
             srecs, sback = group_records(ent2)
-            sj, sbad = judge(chk, sd, srecs, "ego output, failing cases re-run alone", shards)
-            for b in sbad:
-                rec = srecs[b["idx"] - 1]
-                confirmed.append((key_text(b["key"]), rec["lit"], b["ctx"], rec["obs"][b["obs"] - 1], sback[(b["idx"], b["obs"], b["ctx"])]))
-            lap("singles %d" % sum(len(v) for v in redo.values()))
-        chk.cov["failing_in_batch"] = len(ebad)
-        chk.cov["failing_alone"] = len(confirmed)
-        for key, lit, ctx, ob, who in confirmed:
-            c = byid[who[0][0]]
-            chk.violation(key, "literal %s (%s) in context %s: ego printed type %r %s (modes %s); the Go specification gives another value"
-                          % (shown(lit), c["kind"], ctx, ob["ty"], (who[0][2] or "")[:160], sorted({w[1] for w in who})),
-                          {"literal": shown(lit), "context": ctx, "observation": ob, "modes": sorted({w[1] for w in who}),
-                           "program": ego_program([c]),
-                           "run": "ego run" + ("" if who[0][1] == "default" else " --types " + who[0][1]) + " file.ego"})
-
-        # 7. binding self-test / vacuity guard: known-bad pairs and perturbed real observations must fail the contract, good ones pass
+            lap("singles run %d" % sum(len(v) for v in redo.values()))
         good, badp = selftest_records()
         failing = {b["idx"] for b in ebad}
         okrecs = [i for i, r in enumerate(erecs) if (i + 1) not in failing and r["obs"][0]["st"] == "ok"
                   and (r["obs"][0]["digs"] or r["obs"][0]["bytes"])]
-        if len(okrecs) < 10:
+        if len(okrecs) < 12:
             raise vf.NoVerdict("self-test: too few passing ego observations to perturb (%d)" % len(okrecs))
         pert = []
         for i in rng.sample(okrecs, 12):
@@ -461,13 +449,28 @@ def run():
                 ob["digs"][-1] = str((int(ob["digs"][-1]) + 1) % 10)
             pert.append(r)
         trecs = good + [b for _n, b in badp] + pert
-        tj, tbad = judge(chk, sd, trecs, "self-test pairs", 1)
-        flagged = {b["idx"] for b in tbad}
+        n0 = len(srecs)
+        aj, abad = judge(chk, sd, srecs + trecs, "failing cases re-run alone + self-test pairs", 1 if n0 < 400 else shards)
+        sbad = [b for b in abad if b["idx"] <= n0]
+        flagged = {b["idx"] - n0 for b in abad if b["idx"] > n0}
         want = set(range(len(good) + 1, len(trecs) + 1))
-        if tj != n_pairs(trecs) or flagged != want:
+        if aj != n_pairs(srecs) + n_pairs(trecs) or flagged != want:
             names = [n for n, _b in badp] + ["perturbed %s" % shown(p["lit"]) for p in pert]
             raise vf.NoVerdict("binding self-test failed: judged %d/%d; wrongly accepted: %s; wrongly rejected good pairs: %s" % (
-                tj, n_pairs(trecs), [names[i - len(good) - 1] for i in sorted(want - flagged)], sorted(flagged - want)))
+                aj, n_pairs(srecs) + n_pairs(trecs), [names[i - len(good) - 1] for i in sorted(want - flagged)], sorted(flagged - want)))
+        confirmed = []
+        for b in sbad:
+            rec = srecs[b["idx"] - 1]
+            confirmed.append((key_text(b["key"]), rec["lit"], b["ctx"], rec["obs"][b["obs"] - 1], sback[(b["idx"], b["obs"], b["ctx"])]))
+        chk.cov["failing_in_batch"] = len(ebad)
+        chk.cov["failing_alone"] = len(confirmed)
+        for key, lit, ctx, ob, who in confirmed:
+            c = byid[who[0][0]]
+            chk.violation(key, "literal %s (%s) in context %s: ego printed type %r %s (modes %s); the Go specification gives another value"
+                          % (shown(lit), c["kind"], ctx, ob["ty"], (who[0][2] or "")[:160], sorted({w[1] for w in who})),
+                          {"literal": shown(lit), "context": ctx, "observation": ob, "modes": sorted({w[1] for w in who}),
+                           "program": ego_program([c]),
+                           "run": "ego run" + ("" if who[0][1] == "default" else " --types " + who[0][1]) + " file.ego"})
         lap("selftest")
         chk.cov["binding_selftest"] = "%d known-bad pairs rejected, %d good pairs accepted, %d perturbed real observations rejected" % (
             len(badp), len(good), len(pert))
